@@ -162,8 +162,11 @@ func (e *Env) Close() {
 
 // StrOf is the canonical text of sample value v for the variable-length types.
 // Its length varies with v (1..4 padding characters) so that byte offsets are not a
-// multiple of anything.
+// multiple of anything. Value 0 is the zero-length sample (a length prefix only).
 func StrOf(dt string, v int64) string {
+	if v == 0 {
+		return ""
+	}
 	if dt == "json" {
 		return `{"v":` + strconv.FormatInt(v, 10) + strings.Repeat(" ", int(v%3)) + `}`
 	}
@@ -255,6 +258,10 @@ func Decode(dt string, data []byte) []int64 {
 			}
 			s := string(data[off+4 : off+4+l])
 			off += 4 + l
+			if s == "" {
+				out = append(out, 0)
+				continue
+			}
 			var num string
 			if dt == "json" {
 				num = strings.TrimSuffix(strings.TrimPrefix(s, `{"v":`), "}")
